@@ -19,6 +19,8 @@ def Err.toString : Err → String
 
 instance : ToString Err := ⟨Err.toString⟩
 
+deriving instance DecidableEq for Except
+
 /-- An object: a name (the Python `repr` of the name, opaque) and a winding number
     (`z = 0` for cat/monoidal objects; rigid.py:27-71). -/
 structure Ob where
